@@ -19,7 +19,7 @@ from harness.common.framework import Prop, CaseTimeout
 from harness import c11_geno as G
 from translate import t_c11
 
-ENUM_CAP = {'quick': 250, 'thorough': 600}
+ENUM_CAP = {'quick': 160, 'thorough': 600}
 SWEEP_CAP = 80
 
 
@@ -27,7 +27,7 @@ SWEEP_CAP = 80
 # pyglove side helpers (imported lazily)
 # ------------------------------------------------------------------------------------------
 
-def build_spec(j):
+def build_spec(j, touch=False):
   from pyglove.core import geno
   from pyglove.core import utils
 
@@ -39,15 +39,27 @@ def build_spec(j):
       return v['f'][0] / v['f'][1]
     return v
 
+  def touched(x):
+    # a spec built in steps: the part is inspected (ids, look-up by id) while it still stands alone,
+    # then composed into the larger space, where its ids change
+    if touch:
+      ids = x.decision_ids
+      if ids:
+        x.get(ids[0])
+    return x
+
   def point(p):
+    return touched(point_(p))
+
+  def point_(p):
     if p['t'] == 'c':
-      cands = [geno.Space(elements=[point(q) for q in c]) for c in p['cands']]
+      cands = [touched(geno.Space(elements=[point(q) for q in c])) for c in p['cands']]
       lits = None if p.get('lits') is None else [lit(v) for v in p['lits']]
       return geno.Choices(num_choices=p['k'], candidates=cands, distinct=p['d'], sorted=p['s'],
                           literal_values=lits, name=p.get('name'), location=loc(p))
     if p['t'] == 'f':
       return geno.Float(min_value=p['lo'][0] / p['lo'][1], max_value=p['hi'][0] / p['hi'][1],
-                        name=p.get('name'), location=loc(p))
+                        scale=p.get('scale'), name=p.get('name'), location=loc(p))
     if p['t'] == 'u':
       if p.get('hook'):
         # a user hook that enumerates the strings of `hook` in order (contract `HookContract` of the model)
@@ -171,7 +183,8 @@ class C11(Prop):
           'change, stray value), scripted and seeded random_dna (also with previous_dna), DNA comparisons; '
           'plus specs whose custom decision points carry list-enumerating user hooks (root, space element first / '
           'middle / last, inside conditional candidates of single and multi-choices): first_dna, next_dna with '
-          'attach_spec True and False, iter_dna, next_dna on members and on DNAs the hook rejects. Non-trivial: the spec '
+          'attach_spec True and False, iter_dna, next_dna on members and on DNAs the hook rejects; float points with every '
+          'scale hint (None / linear / log / rlog); use_spec is called twice on the same DNA object. Non-trivial: the spec '
           'has at least 2 DNAs or is non-finite; distinct: by case JSON.')
   trusted_base = [
       'translator translate/t_c11.py: shape tables of _space_size, next_value_for_choice, min_remaining_choices and '
@@ -234,8 +247,8 @@ class C11(Prop):
 
   def generate(self, rng, tier):
     cap = ENUM_CAP[tier]
-    n_rand = 240 if tier == 'quick' else 2000
-    n_inf = 90 if tier == 'quick' else 700
+    n_rand = 120 if tier == 'quick' else 2000
+    n_inf = 60 if tier == 'quick' else 700
     for _ in range(n_rand):
       yield self.make_case(G.gen_spec(rng, False, cap), rng, cap=cap)
     for _ in range(n_inf):
@@ -245,8 +258,14 @@ class C11(Prop):
           break
         spec = G.gen_spec(rng, True, cap)
       yield self.make_case(spec, rng, cap=cap)
+    # float points with every scale hint, stand-alone and inside a conditional (random generation)
+    for scale in (None, 'linear', 'log', 'rlog'):
+      lo, hi = rng.randint(1, 3), rng.randint(4, 9)
+      yield self.make_case(G.F([lo, 2], [hi, 1], scale=scale), rng, n_members=1, n_corrupt=2, n_random=3, cap=cap)
+      yield self.make_case(G.S([G.C(1, [[], [G.F([lo, 1], [hi, 1], scale=scale)]], True, False),
+                                G.F([lo, 4], [lo, 1], scale=scale)]), rng, n_members=1, n_corrupt=2, n_random=3, cap=cap)
     # custom decision points with user hooks (first_dna / next_dna / iter_dna go through the hooks)
-    for _ in range(40 if tier == 'quick' else 400):
+    for _ in range(24 if tier == 'quick' else 400):
       yield self.hooked_case(rng)
     # the exhaustive depth-1 family (and a slice of depth 2 built on top of it)
     fam = list(G.family_points())
@@ -264,14 +283,14 @@ class C11(Prop):
       picked = []
       for key in sorted(cells, key=repr):
         group = cells[key]
-        picked += rng.sample(group, min(len(group), 6 if key[0] > 1 else 4))
+        picked += rng.sample(group, min(len(group), 3 if key[0] > 1 else 2))
     else:
       picked = fam      # all 3012; fully enumerated when the size bound is <= cap (1844 of them)
     for p in picked:
       yield self.make_case(p, rng, n_members=2, n_corrupt=6, n_random=1, cap=cap)
     # spaces of two family points, family points as conditional candidates (depth 2)
     pool = [p for p in G.family_points(max_n=3, max_k=2) if G.size_bound(p) <= 12]
-    n2 = 60 if tier == 'quick' else 1500
+    n2 = 30 if tier == 'quick' else 1500
     for _ in range(n2):
       a, b = rng.choice(pool), rng.choice(pool)
       if rng.chance(0.5):
@@ -488,6 +507,8 @@ class C11(Prop):
       c['validate'] = verdict(lambda: spec.validate(dna))
       fresh = mk_dna(d['tree'])
       c['bind'] = verdict(lambda: fresh.use_spec(spec))
+      # a history on ONE object: the same DNA is bound a second time (a caller that retries, a later hand-off)
+      c['bind_again'] = verdict(lambda: fresh.use_spec(spec))
       if finite:
         try:
           nxt = spec.next_dna(mk_dna(d['tree']))
@@ -594,6 +615,7 @@ class C11(Prop):
       chk('norm[%d,%s]' % (i, kind), ca['norm'], cb['norm'])
       chk('validate[%d,%s]' % (i, kind), ca['validate'] == 'ok', cb['validate'])
       chk('bind[%d,%s]' % (i, kind), ca['bind'] == 'ok', cb['bind'])
+      chk('bind twice[%d,%s]' % (i, kind), ca.get('bind_again', ca['bind']) == 'ok', cb['bind'])
       chk('valid(spec) vs reference[%d,%s]' % (i, kind), G.ref_valid(case['spec'], cb['norm']), cb['valid'])
       if 'next' in ca or 'next' in cb:
         chk('next[%d,%s]' % (i, kind), ca.get('next', 'absent'), cb.get('next', 'absent'))
@@ -702,6 +724,10 @@ class C11(Prop):
         if member and not ok:
           return {'signature': '%s-rejects-member' % api,
                   'what': '%s raises %s on the member %s' % (api, c[api], c['norm'])}
+      if 'bind_again' in c and (c['bind_again'] == 'ok') != (c['bind'] == 'ok'):
+        return {'signature': 'bind-twice-differs',
+                'what': 'use_spec on %s (%s): first call %s, second call on the same object %s; spec %s' % (
+                    c['norm'], d['kind'], c['bind'], c['bind_again'], G.spec_key(spec)[:300])}
       if member and 'next' in c and c['next'] not in (None, 'error'):
         if not G.ref_valid(spec, c['next']):
           return {'signature': 'next-not-a-member', 'what': 'next_dna(%s) = %s' % (c['norm'], c['next'])}
@@ -790,7 +816,8 @@ class C11(Prop):
         yield c
 
   def search_cases(self, rng, tier, broken):
-    for _ in range(2):
+    # quick: one more pass of the (light) quick generator, so that the search ends within about a minute
+    for _ in range(1 if tier == 'quick' else 2):
       yield from self.generate(rng.fork(), tier)
 
 
